@@ -189,3 +189,135 @@ def decode_returns(prog, s):
                     continue
         out.append((pc, t, n, st))
     return out
+
+
+def result_in_arrival_order(ctx, rule):
+    """LAN.send returns the frames of the exchange as they arrived: what was queued before the request, then the response, then what followed
+    it - each a decoded read, none dropped, in that order (a caller applies them in order: the latest report wins)."""
+    import ast
+    from ..facts import call_is, strip
+    from ..helpers import term_lookup, unknown_callee
+    from ..terms import summarize
+    prog = ctx.prog
+    send = ctx.fn(f"{LAN}.send")
+    ss = summarize(prog, send)
+    stl = term_lookup(prog, send)
+    # every element appended to the result comes from self._read() / self._read_available()
+    ret_names = {n.value.id for n in ast.walk(send.node) if isinstance(n, ast.Return) and isinstance(n.value, ast.Name)}
+    # appends to the returned list: in send itself, or in a helper that receives the list as an argument (once per call site)
+    apps = [n for n in ast.walk(send.node) if isinstance(n, ast.Call) and isinstance(n.func, ast.Attribute) and n.func.attr == "append" and isinstance(n.func.value, ast.Name)
+            and n.func.value.id in ret_names]
+    for c in [n for n in ast.walk(send.node) if isinstance(n, ast.Call)]:
+        h = unknown_callee(prog, send, c)
+        if h is None:
+            continue
+        hp = h.params[1:] if h.kind in ("method", "classmethod") else h.params
+        passed = {p for p, a in zip(hp, c.args) if isinstance(a, ast.Name) and a.id in ret_names} | \
+                 {k.arg for k in c.keywords if isinstance(k.value, ast.Name) and k.value.id in ret_names}
+        apps += [n for n in ast.walk(h.node) if isinstance(n, ast.Call) and isinstance(n.func, ast.Attribute) and n.func.attr == "append" and isinstance(n.func.value, ast.Name)
+                 and n.func.value.id in passed]
+    srcs = []
+    for a in apps:
+        t = stl(a.args[0])
+        ts = strip(t) if t else None
+        kind = None
+
+        def leaves_(x):
+            x = strip(x)
+            return leaves_(x[2]) + leaves_(x[3]) if x[0] == "ite" else [x]
+        lv_ = leaves_(ts) if ts is not None else []
+        if ts is not None and ts[0] == "await" and call_is(strip(ts[1]), f"{LAN}._read"):
+            kind = "read"
+        elif lv_ and any(x[0] == "await" and call_is(strip(x[1]), f"{LAN}._read") for x in lv_) and \
+                all((x[0] == "await" and call_is(strip(x[1]), f"{LAN}._read")) or x == ("const", None) for x in lv_):
+            kind = "read"       # the Optional result of a helper that returns the decoded read (None = nothing to add, guarded)
+        elif ts is not None and ts[0] == "iter" and call_is(strip(ts[1]), f"{LAN}._read_available"):
+            kind = "drain"
+        srcs.append(kind)
+        ctx.ob(rule, send.qual, kind is not None, "an element of the result is a decoded read", func=send.qual, file=send.module.rel, node=a,
+               fail="something other than a decoded read is added to the response list")
+    # drains written as comprehensions: responses = [r async for r in self._read_available()] / responses.extend([...]) / responses += [...]
+    parent_ = {}
+    for n in ast.walk(send.node):
+        for c in ast.iter_child_nodes(n):
+            parent_[c] = n
+    for n in ast.walk(send.node):
+        if not isinstance(n, ast.ListComp):
+            continue
+        t = ss.ta.terms_at.get(n)
+        if t is None or t[0] != "comp" or len(t[3]) != 1 or t[3][0][2] or t[2] != ("bound", t[3][0][0]) or not call_is(strip(t[3][0][1]), f"{LAN}._read_available"):
+            continue
+        p_ = parent_.get(n)
+        into_result = (isinstance(p_, ast.Assign) and all(isinstance(x, ast.Name) and x.id in ret_names for x in p_.targets)) or \
+            (isinstance(p_, ast.AugAssign) and isinstance(p_.op, ast.Add) and isinstance(p_.target, ast.Name) and p_.target.id in ret_names) or \
+            (isinstance(p_, ast.Call) and isinstance(p_.func, ast.Attribute) and p_.func.attr == "extend" and isinstance(p_.func.value, ast.Name) and p_.func.value.id in ret_names)
+        if into_result:
+            srcs.append("drain")
+    # the same, read off the returned value: early + [response] + late, [*early, response, *late], results of helpers ...
+    def seq_parts(t, depth=0):
+        t = strip(t)
+        if depth > 20 or not isinstance(t, tuple) or not t:
+            return ["other"]
+        if t[0] == "bin" and t[1] == "+":
+            return seq_parts(t[2], depth + 1) + seq_parts(t[3], depth + 1)
+        if t[0] in ("list", "tuple"):
+            out = []
+            for it in t[1]:
+                out += seq_parts(it[1], depth + 1) if it[0] == "starred" else [elem_kind(it)]
+            return out
+        if t[0] == "ite":
+            a_, b_ = seq_parts(t[2], depth + 1), seq_parts(t[3], depth + 1)
+            return a_ if len(a_) >= len(b_) else b_
+        if t[0] == "mut" and t[1] == "append":
+            return seq_parts(t[2], depth + 1) + [elem_kind(t[3][0])]
+        if t[0] == "mut" and t[1] in ("extend", "__iadd__"):
+            return seq_parts(t[2], depth + 1) + seq_parts(t[3][0], depth + 1)
+        if t[0] == "comp" and t[1] == "list" and len(t[3]) == 1 and not t[3][0][2] and t[2] == ("bound", t[3][0][0]) and call_is(strip(t[3][0][1]), f"{LAN}._read_available"):
+            return ["drain"]
+        if t[0] == "call" and t[1] == ("ext", "list") and len(t[2]) == 1:
+            return seq_parts(t[2][0], depth + 1)
+        if t[0] == "await":
+            return seq_parts(t[1], depth + 1)
+        if t[0] == "loopvar":
+            # a list filled by `async for x in self._read_available(): lst.append(x)`: what it held before the loop, then the drained frames
+            for ln, info in ss.loops.items():
+                if getattr(ln, "lineno", None) == t[2] and isinstance(ln, ast.While):
+                    # a retry loop that leaves the list alone on every back edge: at the loop head it is what it was before the loop
+                    if all(strip(st_.env.get(t[1], ("top",))) == t for st_ in info["ends"] + info["continues"]):
+                        before = info["entry"].env.get(t[1])
+                        return seq_parts(before, depth + 1) if before is not None else ["other"]
+                if getattr(ln, "lineno", None) != t[2] or not isinstance(ln, (ast.AsyncFor, ast.For)):
+                    continue
+                it = ss.ta.terms_at.get(ln.iter)
+                body = [b_ for b_ in ln.body if not (isinstance(b_, ast.Expr) and isinstance(b_.value, ast.Constant))]
+                if it is not None and call_is(strip(it), f"{LAN}._read_available") and isinstance(ln.target, ast.Name) and len(body) == 1 \
+                        and isinstance(body[0], ast.Expr) and isinstance(body[0].value, ast.Call) and isinstance(body[0].value.func, ast.Attribute) \
+                        and body[0].value.func.attr == "append" and isinstance(body[0].value.func.value, ast.Name) and body[0].value.func.value.id == t[1] \
+                        and len(body[0].value.args) == 1 and isinstance(body[0].value.args[0], ast.Name) and body[0].value.args[0].id == ln.target.id:
+                    before = info["entry"].env.get(t[1])
+                    return (seq_parts(before, depth + 1) if before is not None else ["other"]) + ["drain"]
+        return ["other"]
+
+    def elem_kind(x):
+        x = strip(x)
+        lv = leaves_(x)
+        if lv and any(y[0] == "await" and call_is(strip(y[1]), f"{LAN}._read") for y in lv) and \
+                all((y[0] == "await" and call_is(strip(y[1]), f"{LAN}._read")) or y == ("const", None) for y in lv):
+            return "read"
+        return "other"
+
+    def leaves_(x):
+        x = strip(x)
+        return leaves_(x[2]) + leaves_(x[3]) if x[0] == "ite" else [x]
+    if not (srcs.count("drain") >= 2 and srcs.count("read") >= 1):
+        for _pc, rt_, rn_, _st in ss.returns:
+            if rn_ is None:
+                continue
+            parts_ = seq_parts(rt_)
+            if "other" not in parts_ and "read" in parts_ and "drain" in parts_[:parts_.index("read")] and "drain" in parts_[parts_.index("read") + 1:]:
+                srcs = parts_
+    ctx.count("result_sources", len(srcs))
+    ctx.ob(rule, send.qual, srcs.count("drain") >= 2 and srcs.count("read") >= 1, "frames read before the write and after the response are appended in arrival order (unsolicited frames are kept, not dropped, older before newer)",
+           func=send.qual, file=send.module.rel, construct="pre-send and post-response drains", detail={"sources": srcs},
+           fail="the pre-send or post-response drain no longer adds its frames to the result in arrival order (queued before the request, the response, queued after it): "
+                "unsolicited state reports are lost, or an older report is applied after a newer one")
